@@ -81,6 +81,9 @@ CONNFLAT = {
     "Net": "model {p}Net {p}Pipe first(k = 3.0); {p}Pipe second; Real inlet; equation connect(first.b, second.a); "
            "first.a.p = inlet; inlet = 1.0; second.b.p = 0.0; end {p}Net;",
 }
+IMPLIB = ("package {n}A model M1 Real x; equation x = 1; end M1; end {n}A; package {n}B constant Real k = 1; end {n}B; "
+          "package {n} import {n}A.*; import {n}B.*; model U M1 a; Real y; equation y = a.x; end U; "
+          "model V M1 b; Real z; equation z = b.x; end V; end {n};")
 GOODKINDS = ["good", "good", "uses", "ext", "pkg", "huge"]
 # -O strings.  Which spellings the tool accepts is implementation-defined and outside the property, so only the two
 # clear classes are classified by construction; the ambiguous spellings are classified by asking the implementation
@@ -159,6 +162,11 @@ def gen_world(rng, wid):
     models.setdefault(cp + "Pipe", "good")
     models.setdefault(cp + "Net", "good")
     chains.append({"paths": ["conn"], "models": [cp + "Pipe", cp + "Net"]})
+    # a package with two unqualified imports whose models use an imported class (input class of the open finding C26-F5)
+    il = name("Imp")
+    files["imp/%s.mo" % il] = ["good", IMPLIB.format(n=il)]
+    models.setdefault(il + ".U", "good")
+    models.setdefault(il + ".V", "good")
     # the same model file in 2..5 directories (candidates for the model directory of -t casadi)
     rn = name("R")
     nrep = rng.choice([2, 3, 3, 4, 5])
@@ -192,7 +200,7 @@ def gen_world(rng, wid):
             blockers.append(m)
             dirs.append("out/%s.py" % m)
     return {"id": wid, "files": files, "dirs": dirs, "other": {"empty/notes.txt": "no models here\n", "README.txt": "x\n"},
-            "models": models, "blockers": blockers, "twins": twins, "chains": chains, "replicas": replicas}
+            "models": models, "blockers": blockers, "twins": twins, "chains": chains, "replicas": replicas, "implib": il}
 
 
 def materialise(ctx, world):
@@ -406,6 +414,13 @@ def gen_invocation(rng, world, stream):
         inv["outdir"] = "out" if inv["target"] else rng.choice(["out", None])
         inv["models"] = rng.choice([[dep, user], [dep, user], [user, dep], [dep, dep], [dep, user, dep], [dep, dep, user],
                                     [user, user], [dep, user, user]])
+    elif kind == "importcache" and world.get("implib"):
+        # several models of a package with two unqualified imports in one flatten-only call (C26-F5)
+        il = world["implib"]
+        inv["paths"] = [rng.choice(["imp", "imp/%s.mo" % il])]
+        inv["target"] = rng.choice([None, None, None, "sympy"])
+        inv["outdir"] = "out" if inv["target"] else None
+        inv["models"] = [il + "." + rng.choice("UV") for _ in range(rng.choice([2, 2, 3]))]
     elif kind == "replicas" and world.get("replicas"):
         # 1..n directories that each hold a file named <Model>.mo
         rp = world["replicas"]
@@ -922,7 +937,7 @@ def run(ctx):
         for i in range(per_world):
             if ctx.time_left() < 0:
                 break
-            stream = "main" if i % 5 != 4 else ctx.rng.choice(["sympyfail", "sympyfail", "nomatch", "nomatch", "undecodable"])
+            stream = "main" if i % 5 != 4 else ctx.rng.choice(["sympyfail", "sympyfail", "nomatch", "nomatch", "undecodable", "importcache"])
             case = make_case(ctx, ctx.rng, world, stream)
             if case is None:
                 continue
